@@ -76,7 +76,8 @@ Record flat := mkFlat {
   f_struct : bool;
   f_own : list (label * fkind * expr);    (* fields of the current group *)
   f_ownp : list (list N * expr);          (* patterns of the current group *)
-  f_subs : list gpart;                    (* new recursively closed groups started at this node *)
+  f_subs : list (list (label * fkind * expr) * list (list N * expr));
+                                          (* new recursively closed groups started at this node *)
   f_closers : list allowset }.
 
 Definition flat_empty : flat := mkFlat false [] false [] [] [] [].
@@ -123,7 +124,7 @@ Fixpoint reaches_open_def (e : expr) : bool :=
 (* turn the current-group part of a flat into a new recursively closed group *)
 Definition seal (fl : flat) : flat :=
   mkFlat (f_bot fl) (f_scal fl) (f_struct fl) [] []
-         (mkPart true (f_own fl) (f_ownp fl) :: f_subs fl) (f_closers fl).
+         ((f_own fl, f_ownp fl) :: f_subs fl) (f_closers fl).
 
 Definition with_closer (a : allowset) (fl : flat) : flat :=
   mkFlat (f_bot fl) (f_scal fl) (f_struct fl) (f_own fl) (f_ownp fl) (f_subs fl)
@@ -207,7 +208,8 @@ Definition nflat_app (a b : nflat) : nflat :=
 Definition flat_conj (c : conj) : nflat :=
   let fl := flat_exprs (c_rec c) (c_exprs c) in
   mkNFlat (f_bot fl) (f_scal fl) (f_struct fl)
-          (mkPart (c_rec c) (f_own fl) (f_ownp fl) :: f_subs fl)
+          (mkPart (c_rec c) (f_own fl) (f_ownp fl) ::
+           map (fun s => mkPart true (fst s) (snd s)) (f_subs fl))
           ((if c_rec c && existsb own_lit (c_exprs c) then [all_declared (c_exprs c)] else []) ++ f_closers fl).
 
 Definition flat_all (cs : list conj) : nflat :=
@@ -249,10 +251,20 @@ Definition part_values (p : gpart) (l : label) : list expr :=
 
 Definition null {A} (l : list A) : bool := match l with [] => true | _ => false end.
 
-(* all conjunct groups of the field l: one per contributing group of the node *)
+(* all conjunct groups of the field l.  What the open (not recursively closed) groups
+   of the node give to l forms ONE open group - open groups are not closed as a unit, so
+   how their values are grouped is immaterial; every recursively closed group of the
+   node gives one recursively closed group. *)
+Definition open_values (fl : nflat) (l : label) : list expr :=
+  flat_map (fun p => if gp_rec p then [] else part_values p l) (n_parts fl).
+
+Definition rec_children (fl : nflat) (l : label) : list conj :=
+  flat_map (fun p => if gp_rec p
+                     then (let vs := part_values p l in if null vs then [] else [mkConj true vs])
+                     else []) (n_parts fl).
+
 Definition children (fl : nflat) (l : label) : list conj :=
-  flat_map (fun p => let vs := part_values p l in
-                     if null vs then [] else [mkConj (gp_rec p) vs]) (n_parts fl).
+  (let vs := open_values fl l in if null vs then [] else [mkConj false vs]) ++ rec_children fl l.
 
 Definition is_atom_c (a : atom) (c : sconstr) : bool :=
   match c with SAtom b => atom_eqb a b | _ => false end.
